@@ -537,6 +537,9 @@ def c14_run(rep, rng, tier, term):
            ('ul_colour256([7)', 'ValueError'), ('dul_color256(7])', 'ValueError'), ('rgb(1,2,3)\n', 'ValueError'), ('color256(7)\n', 'ValueError'),
            ('rgb(0x102030)\n', 'ValueError'), ('rgb([1,2,3]', 'ValueError'), ('rgb(1,2,3', 'ValueError'), ('rgb)1,2,3(', 'ValueError'),
            ('1_0', 'ValueError'), ('+1', 'ValueError'), ('-0', 'ValueError'), ('\uff13\uff11', 'ValueError'), ('\u0663', 'ValueError'), ('bold;3_1', 'ValueError'), ('1.0', 'ValueError'), ('1e1', 'ValueError'),
+           # the function directives are lower case only (member NAMES match in any case; rgb / color256 and their prefixes do not)
+           ('BG_rgb(1,2,3)', 'ValueError'), ('Bg_rgb(1,2,3)', 'ValueError'), ('UL_colour256(200)', 'ValueError'), ('DUL_rgb(1,2,3)', 'ValueError'), ('RGB(1,2,3)', 'ValueError'),
+           ('Rgb(0x010203)', 'ValueError'), ('rgb(0XFF)', 'ValueError'), ('Color256(7)', 'ValueError'), ('fg_RGB(1,2,3)', 'ValueError'), ('bg_COLOUR256(7)', 'ValueError'),
            ('nosuchname', 'ValueError'), (-1, 'ValueError'), ('rgb(1,2)', 'ValueError'), ('rgb(zz)', 'ValueError'), ('rgb(1,2,x)', 'ValueError'),
            ('color256(g)', 'ValueError'), (1.5, 'TypeError'), (None, 'TypeError'), ([None], 'TypeError'), (0.0, 'TypeError'), ([0.0], 'TypeError'), ({}, 'TypeError'), ([{}], 'TypeError'),
            (b'', 'TypeError'), ([b''], 'TypeError'), (b'red', 'TypeError'), (['bold', None], 'TypeError'), (Positional(['bold', None]), 'TypeError'), (set(), 'TypeError'), ({'a': 1}, 'TypeError'), (['red', 2.5], 'TypeError'), ('-3', 'ValueError'),
@@ -573,16 +576,8 @@ def c14_run(rep, rng, tier, term):
 
 
 def c14_replay(v, term):
-    return 'replay by rerunning the check (case: %s)' % v.get('case') if c14_run.__call__ and False else _c14_one(v)
-
-
-def _c14_one(v):
-    class R:
-        def count(self, *a, **k): pass
-        def bump(self, *a, **k): pass
-    vi, _ = c14_run(R(), random.Random(0), 'quick', None)
-    hit = [x for x in vi if x['oracle'] == v.get('oracle')]
-    return hit[0]['msg'] if hit else None
+    """the recorded case under its oracle, found again by rerunning the (deterministic) exploration"""
+    return generic_case_replay(c14_run)(v, term)
 
 
 # ====================================================================== C15
@@ -1024,8 +1019,26 @@ def c03_check(term, o, viol, payload):
             elif None not in st0 and None not in st1 and st0 != st1:
                 k = [a != b for a, b in zip(st0, st1)].index(True)
                 viol.append({'oracle': 'C03.roundtrip', 'case': payload, 'msg': 'character %d: style %s after re-parse, was %s (str: %r)' % (k, st1[k], st0[k], str(o))})
-    # simplify: on values whose VALID settings are well-formed
+    # simplify: on values whose VALID settings are well-formed; the immutable class returns the simplified value
     valid_wf = all(i[3] for i in infos if i[0])
+    t_ = AnsiStr(o)
+    rt = call(lambda: t_.simplify())
+    if rt[0] != 'ok' or not isinstance(rt[1], AnsiStr):
+        viol.append({'oracle': 'C03.simplify', 'case': payload, 'msg': 'AnsiStr.simplify() %s' % (rt[:2],)})
+    else:
+        ct = rt[1]
+        if ct.base_str != base:
+            viol.append({'oracle': 'C03.simplify.text', 'case': payload, 'msg': 'AnsiStr.simplify() changed the text to %r' % ct.base_str})
+        elif not ct.is_formatting_parsable() or not ct.is_formatting_valid():
+            viol.append({'oracle': 'C03.simplify.parsable', 'case': payload, 'msg': 'after AnsiStr.simplify(): parsable=%s valid=%s' % (ct.is_formatting_parsable(), ct.is_formatting_valid())})
+        elif valid_wf:
+            exp_t = [term.style([str(x) for x in o.ansi_settings_at(i) if x.valid]) for i in range(len(base))]
+            got_t = styles_of(term, ct)
+            if None not in exp_t and None not in got_t and exp_t != got_t:
+                k = [a != b for a, b in zip(exp_t, got_t)].index(True)
+                viol.append({'oracle': 'C03.simplify.style', 'case': payload, 'msg': 'AnsiStr.simplify(): character %d: style %s, was %s' % (k, got_t[k], exp_t[k])})
+        if str.__str__(ct) != ct.to_str():
+            viol.append({'oracle': 'C03.simplify', 'case': payload, 'msg': 'AnsiStr.simplify(): str value %r differs from the rendering %r' % (str.__str__(ct), ct.to_str())})
     c = AnsiString(o)
     r = call(lambda: c.simplify())
     if r[0] != 'ok':
@@ -1273,7 +1286,7 @@ def c12fmt_run(rep, rng, tier, term):
     fixed = [('AnsiString()', AnsiString('')), ("AnsiString('ab')", AnsiString('ab')), ("AnsiStr('ab')", AnsiStr('ab')), ("AnsiStr('')", AnsiStr('')),
              ("AnsiString('a b')", AnsiString('a b')), ("AnsiString('ab','bold')", AnsiString('ab', 'bold')), ("AnsiStr('ab','red')", AnsiStr('ab', 'red'))]
     for (vname, v) in fixed:
-        for width in ('05', '005', '00', '010', '5', '2'):
+        for width in ('05', '005', '00', '010', '5', '2', '0' * 19 + '5', '0' * 25 + '3', '0' * 40):      # leading zeros do not make a width large
             for align in ('', '<', '>', '^'):
                 for fill in ('', '*', 'x', '0'):
                     if align == '' and fill:
@@ -1675,4 +1688,53 @@ def c07_esc_run(rep, rng, tier, term):
                     break
             if clsname == 'AnsiStr' and str.__str__(res) != res.to_str():
                 viol.append({'oracle': 'C07.esc', 'case': payload, 'msg': 'payload of the result differs from its rendering'})
+    return viol, []
+
+
+# ====================================================================== C04 on texts that contain U+001B
+def c04_esc_run(rep, rng, tier, term):
+    """slices, integer indices, clip and iteration of values whose TEXT contains U+001B - unformatted ones in particular (no change
+    point at all), with texts that spell complete SGR sequences (reachable through assign_str, concatenation of pieces, case
+    conversion of ESC [ 1 M, clear_formatting): the piece of text is taken as it is, never parsed again"""
+    viol = []
+    n = 60 if tier == 'quick' else 3000
+    fixed = ['\x1b[1mXY', 'a\x1b[31mb\x1b[mc', '\x1b[m', 'x\x1b[1;4m', '\x1b[2J\x1b[1mq']
+    for k in range(n):
+        t = fixed[k] if k < len(fixed) else esc_text(rng)
+        if ESC not in t:
+            continue
+        clsname = 'AnsiStr' if k % 2 else 'AnsiString'
+        a = AnsiString('')
+        a.assign_str(t)
+        L = len(t)
+        spans = [] if k % 3 == 0 else [(rng.choice(['bold', 'red', '[38;5;1']), rng.randint(0, L), rng.randint(0, L + 1)) for _ in range(rng.randint(1, 2))]
+        for (f, st, en) in spans:
+            a.apply_formatting(f, st, en)
+        v = AnsiStr(a) if clsname == 'AnsiStr' else a
+        src = [[str(x) for x in v.ansi_settings_at(i)] for i in range(L)]
+        bounds = [None] + list(range(-L - 1, L + 2))
+        pairs = [(i, j) for i in bounds for j in bounds] if L <= 6 else [(rng.choice(bounds), rng.choice(bounds)) for _ in range(60)]
+        for (i, j) in pairs:
+            payload = {'class': clsname, 'text': t, 'applied': [list(x) for x in spans], 'slice': [i, j]}
+            rep.count(payload, True)
+            r = call(lambda: v[i:j])
+            if r[0] != 'ok':
+                viol.append({'oracle': 'C04.esc', 'case': payload, 'msg': 's[%r:%r] %s' % (i, j, r)})
+                break
+            p = r[1]
+            idx = list(range(L))[i:j]
+            if p.base_str != t[i:j]:
+                viol.append({'oracle': 'C04.esc', 'case': payload, 'msg': 's[%r:%r] has the text %r, base_str[%r:%r] is %r' % (i, j, p.base_str, i, j, t[i:j])})
+                break
+            got = [[str(x) for x in p.ansi_settings_at(m)] for m in range(len(p.base_str))]
+            if got != [src[m] for m in idx]:
+                viol.append({'oracle': 'C04.esc', 'case': payload, 'msg': 's[%r:%r] reports %s, the source characters report %s' % (i, j, got, [src[m] for m in idx])})
+                break
+            c = call(lambda: (AnsiString(v) if clsname == 'AnsiString' else v).clip(i, j))
+            if c[0] != 'ok' or value_obs(c[1]) != value_obs(p):
+                viol.append({'oracle': 'C04.esc', 'case': payload, 'msg': 'clip(%r, %r) differs from s[%r:%r]' % (i, j, i, j)})
+                break
+        pieces = call(lambda: [x.base_str for x in v])
+        if pieces != ('ok', list(t)):
+            viol.append({'oracle': 'C04.esc', 'case': {'class': clsname, 'text': t, 'applied': [list(x) for x in spans], 'iteration': True}, 'msg': 'iteration yields %s' % (pieces,)})
     return viol, []
